@@ -109,6 +109,11 @@ func (h *pmHist) arrive(r int64, pid uint16, wantDrop bool) (bool, uint16, uint1
 	return ok, o, pd
 }
 
+// dump compares the complete internal state with the L0 model.
+func (h *pmHist) dump() {
+	h.t.Op(h.m.VerifDump(), "dump")
+}
+
 // reverse probes Reverse(o) and checks it against the reference.
 func (h *pmHist) reverse(o uint16) {
 	ok, s, pd := h.m.Reverse(o)
@@ -138,6 +143,10 @@ func runPmap(t *tr.Trace, r *tr.Rand, n int) {
 	for hi := 0; hi < n; hi++ {
 		streamKind := r.Pick(4, 4, 2, 2, 1)
 		name := []string{"steady", "lossy", "startpos", "manyintervals", "reset"}[streamKind]
+		if hi%12 == 11 {
+			pmLongRun(t, r)
+			continue
+		}
 		h := newPmHist(t, name)
 		var start int64 = 1 << 20
 		switch r.Pick(2, 2, 2, 2) {
@@ -226,6 +235,9 @@ func runPmap(t *tr.Trace, r *tr.Rand, n int) {
 				wantDrop = true // one drop every three packets: many intervals
 			}
 			ok, o, _ := h.arrive(x, pid, wantDrop)
+			if i%97 == 96 {
+				h.dump()
+			}
 			if ok {
 				sent = append(sent, x)
 				if r.Chance(1, 6) {
@@ -242,8 +254,60 @@ func runPmap(t *tr.Trace, r *tr.Rand, n int) {
 				}
 			}
 		}
+		h.dump()
 		t.Nontrivial(fmt.Sprintf("pmap/%s/%d/%d/%d", name, start, len(h.ref.d), len(sent)))
 	}
+}
+
+// pmLongRun: intervals that live long enough for retire to fire (in Map and
+// in Drop), with drop bursts, late copies and NACK probes in between.
+func pmLongRun(t *tr.Trace, r *tr.Rand) {
+	h := newPmHist(t, "longrun")
+	x := int64(1<<20) + int64(r.Intn(65536))
+	h.arrive(x, 0, false)
+	x++
+	h.arrive(x, 0, true)
+	x++
+	for seg := 0; seg < 3; seg++ {
+		run := 0
+		switch r.Pick(3, 2, 1) {
+		case 0:
+			run = 16384 + r.Range(-20, 20)
+		case 1:
+			run = 16384 + 8192*r.Range(0, 2) + r.Range(-20, 20)
+		default:
+			run = r.Range(8000, 30000)
+		}
+		for j := 0; j < run; j++ {
+			h.arrive(x, 0, false)
+			x++
+			if r.Chance(1, 4000) { // an occasional loss or late packet inside the run
+				h.arrive(x-int64(r.Range(2, 8000)), 0, false)
+			}
+		}
+		first := x
+		burst := r.Range(1, 12)
+		for j := 0; j < burst; j++ {
+			h.arrive(x, 0, true)
+			x++
+		}
+		h.dump()
+		for j := 0; j < r.Range(0, 6); j++ {
+			h.arrive(x, 0, false)
+			x++
+		}
+		for y := first - 3; y < x; y++ {
+			h.arrive(y, 0, false)
+			h.reverse(uint16(h.ref.out(y)))
+		}
+		for k := 0; k < 40; k++ {
+			y := x - int64(r.Range(1, 8191))
+			h.arrive(y, 0, false)
+			h.reverse(uint16(h.ref.out(y)))
+		}
+		h.dump()
+	}
+	t.Nontrivial(fmt.Sprintf("pmap/longrun/%d/%d", x, len(h.ref.d)))
 }
 
 // pmCorpus: the long deterministic histories that exhibited F9 and F12 on
@@ -276,6 +340,42 @@ func pmCorpus(t *tr.Trace) {
 		for back := int64(1); back < 8000; back += 13 {
 			h.arrive(r-back, 0, false)
 			h.reverse(uint16(h.ref.out(r - back)))
+		}
+	}
+	// retire fires inside Drop: an interval that has lived for 16384 (+ k*8192)
+	// packets, then a run of withheld packets straddling the threshold, then
+	// late copies of the withheld packets and of their neighbours
+	for _, run := range []int{16370, 16380, 16383, 16384, 16385, 16390, 24570, 24576, 24580, 32768, 40960} {
+		for _, start := range []int64{1<<20 + 60000, 1<<20 + 3} {
+			h := newPmHist(t, fmt.Sprintf("corpus-retire-in-drop-%d", run))
+			r := start
+			// leave the pristine state first: intervals exist only after a drop
+			h.arrive(r, 0, false)
+			r++
+			h.arrive(r, 0, true)
+			r++
+			for j := 0; j < run; j++ {
+				h.arrive(r, 0, false)
+				r++
+			}
+			first := r
+			for j := 0; j < 6; j++ {
+				h.arrive(r, 0, true)
+				r++
+				h.dump()
+			}
+			for j := 0; j < 5; j++ {
+				h.arrive(r, 0, false)
+				r++
+			}
+			for x := first - 4; x < r; x++ {
+				h.arrive(x, 0, false)
+				h.reverse(uint16(h.ref.out(x)))
+			}
+			for back := int64(1); back < 8192; back += 61 {
+				h.arrive(r-back, 0, false)
+			}
+			h.dump()
 		}
 	}
 	// F12(b): a very long run of consecutive withheld packets
